@@ -14,6 +14,9 @@ C01.g restore reuses existing destination content only for exact-size regular fi
   attached to the request they were verified for (C14.f, C14.h).
 C01.h backup-side metadata wiring (see backup_metadata_rule): mode, mtime (untruncated), uid/gid/user/group, inode, links,
   size each come from the matching fs::Metadata accessor; symlink targets from read_link(entry.path()) on the is_symlink edge.
+C01.k symlink targets are read only through NodeType::to_link(): the `linktarget` field is the LOSSY (UTF-8) form, the exact
+  bytes of a non-UTF-8 target live in `linktarget_raw`; outside backend::node (to_link, the constructors, the derived codecs)
+  nothing reads the lossy field, and restore's create_special hands symlink() the result of to_link().
 C01.i ranged reads (OpenFile::read_at): per loop round the appended bytes = min(len(blob) - offset, remaining), then
   offset := 0, index += 1, remaining -= appended (symbolic one-iteration summary).
 C01.f restore writes each blob at the offset recorded for it, taken from the read of the matching range.
@@ -49,6 +52,8 @@ def run(ctx, rep):
     # restore-side necessary conditions for byte equality (decided in C14)
     n = borrow(rep, ctx, C14, lambda o: o.rule in ("C14.f", "C14.h", "C14.i"), "C01.g")
     rep.floor("C01.g", "borrowed obligations", n, 4)
+    rep.rule("C01.k", "symlink targets are read through NodeType::to_link() only (non-UTF-8 targets survive)")
+    lossy_link_rule(ctx, rep, "C01.k")
     rep.rule("C01.i", "ranged reads: one-iteration summary of OpenFile::read_at (symbolic lengths)")
     ranged_read_rule(ctx, rep, "C01.i")
     rep.rule("C01.h", "backup records each metadata field from the matching file-system accessor; symlink targets via read_link")
@@ -318,3 +323,52 @@ def ranged_read_rule(ctx, rep, R):
         okm = bool(m0) and bool(m1) and {repr(m0[0]), repr(m1[0])} == {repr(want0), repr(hs.ival[rem[0]])} or (bool(m0) and bool(m1) and any(m0[0] == ln - hs.ival[off[0]] for ln in lens) and m1[0] == hs.ival[rem[0]])
         rep.check(R, "read_at/min-operands", okm, where=where(RA, abb), what="min is taken over (len(blob) - offset, remaining length)" if okm else f"min is taken over ({m0}, {m1})")
         sf = [v for (n, bb, v) in a.found if n == "slice_from"]
+
+
+def _mentions_field(x, field, owner_suffix):
+    if isinstance(x, list):
+        if len(x) >= 5 and x[0] == "f" and x[2] == field and isinstance(x[4], str) and x[4].endswith(owner_suffix):
+            return True
+        return any(_mentions_field(y, field, owner_suffix) for y in x)
+    if isinstance(x, dict):
+        return any(_mentions_field(y, field, owner_suffix) for y in x.values())
+    if isinstance(x, tuple):
+        return any(_mentions_field(y, field, owner_suffix) for y in x)
+    return False
+
+
+def lossy_link_rule(ctx, rep, R):
+    """who-may-read rule for NodeType::Symlink.linktarget (the lossy form of a link target)"""
+    prog = ctx.prog
+    readers = []
+    n_in_node = 0
+    for b in prog.by_crate["rustic_core"]:
+        hit = None
+        for bi, blk in enumerate(b.blocks):
+            for s_ in blk["s"]:
+                # a read: the field occurs on the right-hand side (or as a reference taken of it)
+                if s_[0] == "=" and _mentions_field(s_[2], "linktarget", "NodeType"):
+                    hit = bi
+            t = blk["t"]
+            if _mentions_field(t.get("args", []), "linktarget", "NodeType") or _mentions_field(t.get("discr", []), "linktarget", "NodeType"):
+                hit = bi
+        if hit is None:
+            continue
+        if re.search(r"(^|<)rustic_core::backend::node::", b.path):
+            n_in_node += 1
+            continue
+        readers.append((b, hit))
+    for b, bi in readers:
+        rep.check(R, f"{fn_key(b)}/reads-lossy-linktarget", False, where=where(b, bi),
+                  what=f"{fn_key(b)} reads NodeType::Symlink.linktarget directly: for a non-UTF-8 target this is the lossy form (U+FFFD), the exact bytes are only returned by NodeType::to_link()")
+    rep.check(R, "lossy-linktarget-read-only-in-node-module", not readers, where="crates/core/src/backend/node.rs", what=f"the lossy `linktarget` field is read only inside backend::node ({n_in_node} bodies: to_link, constructors, codecs)")
+    rep.floor(R, "bodies of backend::node reading the linktarget field", n_in_node, 1)
+    CS = prog.find1(r"^rustic_core::backend::local_destination::LocalDestination::create_special$")
+    sym = [(bb, t) for bb, t in CS.calls() if "callee" in t and re.search(r"(^|::)symlink$", callee(t))]
+    rep.require(R, "create_special/symlink-call", len(sym) >= 1, where=CS.loc(), what="create_special creates symlinks with std::os::unix::fs::symlink")
+    oks = bool(sym)
+    for bb, t in sym:
+        sl = flow.backward_slice(CS, op_place(t["args"][0])) if op_place(t["args"][0]) else {"calls": []}
+        oks = oks and any(c.endswith("NodeType::to_link") for c in sl["calls"])
+    rep.check(R, "create_special/target-from-to_link", oks, where=CS.loc(), what="the target handed to symlink() comes from NodeType::to_link() (raw bytes honoured)" if oks else
+              "the target handed to symlink() does not come from NodeType::to_link(): non-UTF-8 link targets are restored lossily")
